@@ -383,9 +383,12 @@ def report(ctx, prop, outs, level, tier, seed, assumptions, trusted, t0, evid_pa
     have = {r["obligation"] for r in results}
     missing = [n for n in baseline.get("obligations", []) if n not in have] if not os.environ.get("VERIF_ONLY") else []
     try:
-        os.makedirs(os.path.join(ROOT, "cache"), exist_ok=True)
-        with open(os.path.join(ROOT, "cache", prop + ".obligations.json"), "w") as f:
-            json.dump(sorted(have), f)
+        # the list tools/mkbaseline.py reads: only from runs on /repo itself (corpus runs on scratch copies set VERIF_REPO
+        # and VERIF_EVIDENCE_DIR and must not overwrite it)
+        if not os.environ.get("VERIF_ONLY") and REPO == "/repo" and not os.environ.get("VERIF_EVIDENCE_DIR"):
+            os.makedirs(os.path.join(ROOT, "cache"), exist_ok=True)
+            with open(os.path.join(ROOT, "cache", prop + ".obligations.json"), "w") as f:
+                json.dump(sorted(have), f)
     except OSError:
         pass
     rc = 0
